@@ -80,6 +80,21 @@ Proof.
               (raw_signbit_exact w Hw x Hx))).
 Qed.
 Print Assumptions C16_sign_ops_raw_exact.
+(* ... and the raw model is consistent with the value-level model of C16_fabs_copysign_exact: bit_cast of the raw result is
+   abs_impl / copysign_fallback of the bit_cast operands, for every binary32 / binary64 pattern (copysign: second operand
+   not a NaN - the value level has no NaN sign) *)
+Theorem C16_sign_ops_raw_consistent :
+  (forall b, 0 <= b < 2 ^ 32 -> dec32 (raw_e_abs 32 b) = e_abs 24 128 (dec32 b)) /\
+  (forall b, 0 <= b < 2 ^ 64 -> dec64 (raw_e_abs 64 b) = e_abs 53 1024 (dec64 b)) /\
+  (forall x y, 0 <= x < 2 ^ 32 -> 0 <= y < 2 ^ 32 -> is_nan (dec32 y) = false ->
+     dec32 (raw_e_copysign_fb 32 x y) = e_copysign_fb 24 128 (dec32 x) (dec32 y)) /\
+  (forall x y, 0 <= x < 2 ^ 64 -> 0 <= y < 2 ^ 64 -> is_nan (dec64 y) = false ->
+     dec64 (raw_e_copysign_fb 64 x y) = e_copysign_fb 53 1024 (dec64 x) (dec64 y)).
+Proof.
+  exact (conj (dec_raw_e_abs 23 8 eq_refl eq_refl eq_refl) (conj (dec_raw_e_abs 52 11 eq_refl eq_refl eq_refl)
+        (conj (dec_raw_e_copysign_fb 23 8 eq_refl eq_refl eq_refl) (dec_raw_e_copysign_fb 52 11 eq_refl eq_refl eq_refl)))).
+Qed.
+Print Assumptions C16_sign_ops_raw_consistent.
 (* non-vacuity: fabs of the positive and of the negative binary32 quiet NaN is the positive one;
    copysign(+NaN, -1.0f) is the negative NaN *)
 Example C16_sign_ops_raw_nonvacuous :
